@@ -339,6 +339,14 @@ Section EVAL.
              | Some x => new_value (OBool x) false true
              | None => user_operator text l r (dispatch_error text)
              end
+    | Some (OStr a), Some (ONum _ t v) =>
+        (* string += char is registered; any arithmetic right operand is converted to char at dispatch *)
+        if String.eqb text "+=" then
+          match convert t v (TI 8 true) with
+          | Some (VI z) => write_through l (OStr (a ++ String (ascii_of_N (Z.to_N (Z.modulo z 256))) "")) "+=" ;;; reference_to l
+          | _ => unsup "conversion of an out-of-range floating-point value"
+          end
+        else user_operator text l r (dispatch_error text)
     | Some (OBool a), Some (OBool b) =>
         if String.eqb text "==" then new_value (OBool (Bool.eqb a b)) false true
         else if String.eqb text "!=" then new_value (OBool (negb (Bool.eqb a b))) false true
